@@ -109,6 +109,8 @@ def run(tier, seed, deep, hints):
         except Exception:  # noqa: BLE001
             pass
     for ops in cases:
+        if core.search_expired():
+            break
         evals += 1
         try:
             bad = _oracle_run(ops)
